@@ -290,25 +290,24 @@ fn dispatch_case(k: usize) -> (u8, u8) {
     if v == 0 && res.is_ok() {
         assert!(r.has.len() == k);
     }
-    let q = poll_without_graph(&mut r);
+    // (`poll` afterwards: decided from every valid responder state by
+    // c18_responder_poll_any_state; composing both here ran into the memory watchdog)
     core::mem::forget(r);
-    (d, q)
+    (d, 0)
 }
 
 /// Every request kind with all field values, on every valid responder state.
 #[kani::proof]
-#[kani::unwind(21)]
+#[kani::unwind(4)]
 fn c18_responder_dispatch_structured() {
     let (d0, _) = dispatch_case(0);
-    let (d, q) = dispatch_case(2);
+    let (d, _) = dispatch_case(2);
     kani::cover!(d0 == DISPATCH_STARTED, "first SyncRequest (empty sample) starts the session");
     kani::cover!(d == DISPATCH_OTHER_SESSION, "poll for another session rejected");
     kani::cover!(d == DISPATCH_STARTED, "first SyncRequest starts the session");
     kani::cover!(d == DISPATCH_RESTARTED, "SyncRequest restarts a matching session");
     kani::cover!(d == DISPATCH_UNSUPPORTED, "RequestMissing / SyncResume rejected");
     kani::cover!(d == DISPATCH_STOPPED, "EndSession stops the session");
-    kani::cover!(q == POLL_NO_SUCH_GRAPH, "poll after SyncRequest for an unknown graph");
-    kani::cover!(q == POLL_WROTE_END_SESSION, "EndSession written after an unsupported request");
 }
 
 /// `poll` on every valid responder state without any message (covers Send / Idle / Stopped,
